@@ -1,5 +1,5 @@
-From BT Require Import Base.Util Base.Float Model.RTree Model.BBIFile Model.BigWigWrite Model.BBIRead
-  Model.BigBedWrite Model.BBIReadBed Proofs.Chunks Proofs.BedQuery.
+From BT Require Import Base.Util Base.Float Model.RTree Model.BBIFile Model.BigWigWrite Model.BBIRead Model.CachedRead
+  Model.BigBedWrite Model.BBIReadBed Proofs.Chunks Proofs.RTreeCodec Proofs.BedQuery Proofs.BedCached Proofs.BedEndToEnd Proofs.BedZoomFit.
 From BT Require Properties.C04.
 Local Open Scope N_scope.
 Check (C04.C04_skipped_block_empty : forall s e c, starts_sorted c -> bchunk_hit s e c = false -> filter (bkeep s e) c = []).
@@ -15,3 +15,28 @@ Check (C04.C04_no_disjoint : forall ips s e es x, starts_sorted es ->
 Check (C04.C04_accepted_sorted : forall len es, check_entries len es = Ok tt -> starts_sorted es).
 Check (C04.C04_refuted_unrepaired :
   exists c s e, starts_sorted c /\ bchunk_hit_last s e c = false /\ filter (bkeep s e) c <> []).
+Check (C04.C04_file_query : forall (sweep : list bchrom -> summary)
+    (zoom_part : list bchrom -> summary -> N -> N -> res (list N * list zoom_header)),
+  (forall outs sum a b zb zh, zoom_part outs sum a b = Ok (zb, zh) -> (length zh <= 10)%nat) ->
+  forall o sizes autosql input f, bb_write_gen sweep zoom_part o sizes autosql input = Ok f ->
+  file_hyps o sizes input f ->
+  exists i, read_info f = Ok i /\ forall infl c es s e, In (c, es) (bruns input) ->
+    bb_interval infl f i c s e = Ok (filter (bkeep s e) es)).
+Check (C04.C04_history : forall infl bs i qs,
+  c_bb_history infl bs i cache0 qs = map (fun q => bb_interval infl bs i (fst (fst q)) (snd (fst q)) (snd q)) qs).
+Check (C04.C04_history_from : forall infl bs i c qs, cache_ok infl bs i c ->
+  c_bb_history infl bs i c qs = map (fun q => bb_interval infl bs i (fst (fst q)) (snd (fst q)) (snd q)) qs).
+Check (C04.C04_file_no_miss_no_disjoint : forall (sweep : list bchrom -> summary)
+    (zoom_part : list bchrom -> summary -> N -> N -> res (list N * list zoom_header)),
+  (forall outs sum a b zb zh, zoom_part outs sum a b = Ok (zb, zh) -> (length zh <= 10)%nat) ->
+  forall o sizes autosql input f, bb_write_gen sweep zoom_part o sizes autosql input = Ok f ->
+  file_hyps o sizes input f ->
+  exists i, read_info f = Ok i /\ forall infl c es s e, In (c, es) (bruns input) ->
+    exists ans, bb_interval infl f i c s e = Ok ans
+      /\ (forall x, In x es -> e_start x < e -> s < e_end x -> In x ans)
+      /\ (forall x, In x ans -> In x es /\ s <= e_end x /\ e_start x <= e)
+      /\ ans = filter (bkeep s e) es).
+Check (C04.C04_written_file_query : forall two_pass fp o sizes autosql input f,
+  bb_write_either two_pass fp o sizes autosql input = Ok f -> file_hyps o sizes input f ->
+  exists i, read_info f = Ok i /\ forall infl c es s e, In (c, es) (bruns input) ->
+    bb_interval infl f i c s e = Ok (filter (bkeep s e) es)).
